@@ -191,6 +191,77 @@ func RestartLoop(seed int64, prog Program, n int) *RunResult {
 			return out
 		}
 	}
+	// A Serve call that is still inside its OnServe callback when the service is shut down and served again:
+	// once the callback returns, that call finds its own life over and returns - it does not wait for the
+	// end of the life that was started meanwhile.
+	for rep := 0; rep < 3 && len(out.Violations) == 0; rep++ {
+		served1, release := make(chan struct{}), make(chan struct{})
+		s.SetOnServe(func(*res.Service) { close(served1); <-release })
+		d1 := make(chan error, 1)
+		conn1 := rconn.New(nil)
+		go func() { d1 <- s.Serve(conn1) }()
+		select {
+		case <-served1:
+		case <-time.After(3 * time.Second):
+			close(release)
+			viol("serve-not-started", "Serve did not reach its OnServe callback within 3s")
+			return out
+		}
+		sd := make(chan error, 1)
+		go func() { sd <- s.Shutdown() }()
+		select {
+		case <-sd:
+		case <-time.After(3 * time.Second):
+			close(release)
+			viol(hangKind(goroutineDump()), "Shutdown did not return within 3s while the Serve call was inside its OnServe callback")
+			return out
+		}
+		served2 := make(chan struct{})
+		s.SetOnServe(func(*res.Service) { close(served2) })
+		d2 := make(chan error, 1)
+		go func() { d2 <- s.Serve(rconn.New(nil)) }()
+		select {
+		case <-served2:
+		case err := <-d2:
+			close(release)
+			viol("restart-refused", fmt.Sprintf("Serve after a Shutdown that returned (previous Serve call still in OnServe) ended at once: %v", err))
+			return out
+		case <-time.After(3 * time.Second):
+			close(release)
+			viol("serve-not-started", "the restarted service did not start within 3s")
+			return out
+		}
+		close(release)
+		select {
+		case <-d1:
+		case <-time.After(time.Second):
+			viol("serve-hang", "a Serve call whose Shutdown had returned did not return within 1s after its OnServe callback returned (the service had been served again meanwhile)")
+		}
+		ran := make(chan struct{})
+		if err := s.With("test.r.a", func(res.Resource) { close(ran) }); err == nil {
+			select {
+			case <-ran:
+			case <-time.After(2 * time.Second):
+				viol("restart-lost", "a callback accepted after the restart did not run")
+			}
+		}
+		go func() { sd <- s.Shutdown() }()
+		select {
+		case <-sd:
+		case <-time.After(3 * time.Second):
+			viol(hangKind(goroutineDump()), "Shutdown of the restarted service did not return within 3s")
+			return out
+		}
+		select {
+		case <-d2:
+		case <-time.After(3 * time.Second):
+			viol("serve-hang", "Serve did not return within 3s after Shutdown")
+		}
+		select {
+		case <-d1:
+		default:
+		}
+	}
 	return out
 }
 
